@@ -87,6 +87,7 @@ func c08ProgOracle(e *progEnv, res *progStepResult) (sig, what string, descend b
 }
 
 func replayC08(raw json.RawMessage) (string, error) {
+	cpuDirtIRQ = true
 	var pp progPath
 	if json.Unmarshal(raw, &pp) == nil && len(pp.Syms) > 0 {
 		return progReplay(pp, progSeeds(true), progAlphabetInt(), false, c08ProgOracle)
@@ -103,6 +104,7 @@ func replayC08(raw json.RawMessage) (string, error) {
 }
 
 func runC08(r *report.Run) {
+	cpuDirtIRQ = true
 	var nontriv, total int64
 	f := func(x *cpuCtx, c *cpuCase) {
 		sig, what, nt := c08Check(x, c)
